@@ -4,6 +4,7 @@ pub mod common;
 pub mod server_rig;
 pub mod wire;
 pub mod c01_single;
+pub mod c02_batch;
 pub mod c13_registry;
 pub mod c16_params_seq;
 pub mod c20_params_builder;
